@@ -415,6 +415,68 @@ def run_converged_case(res, cfg, spec, nodes, Q, w, p, right):
 # ======================================================================================================================
 # Documented orders, transcribed from the class docstrings of pySDC/implementations/sweeper_classes/Runge_Kutta.py
 # (int = order of the method; tuple = documented orders of an embedded pair, in any order; None = the docs give no order).
+# ======================================================================================================================
+# switch clause: the preconditioner of an EXISTING sweeper is replaced (parameter and matrix, through the sweeper's own
+# generator function, as updateVariableCoeffs and users do); the step function must be the one of a sweeper built with the
+# new name directly (differential oracle: no expected value is written down)
+# ======================================================================================================================
+def run_step_switched(problem_class, problem_params, sweeper_class, params_a, names_b, slots, maxiter):
+    description = {
+        'problem_class': problem_class,
+        'problem_params': problem_params,
+        'sweeper_class': sweeper_class,
+        'sweeper_params': params_a,
+        'level_params': {'dt': DT, 'restol': -1.0, 'nsweeps': 1},
+        'step_params': {'maxiter': maxiter},
+    }
+    ctrl = controller_nonMPI(num_procs=1, controller_params={'logger_level': 90}, description=description)
+    for S in ctrl.MS:
+        for Lv in S.levels:
+            sw = Lv.sweep
+            for slot, expl in slots:
+                setattr(sw.params, slot, names_b[slot])
+                setattr(sw, slot, sw.get_Qdelta_explicit(names_b[slot]) if expl else sw.get_Qdelta_implicit(names_b[slot]))
+    P = ctrl.MS[0].levels[0].prob
+    uend, stats = ctrl.run(u0=P.dtype_u(P.init, val=1.0), t0=0.0, Tend=DT)
+    return np.array(np.asarray(uend), copy=True)
+
+
+def run_switch_unit(unit):
+    common.silence_logging()
+    res = Res()
+    kind, a, b, nt, qt, M = unit['kind'], unit['a'], unit['b'], unit['node_type'], unit['quad_type'], unit['M']
+    spec = KINDS[kind]
+    right = qt in ('LOBATTO', 'RADAU-RIGHT')
+    z = circle(0.25)
+    if kind != 'imex':
+        pc, pp = testequation0d, {'lambdas': z / DT, 'u0': 1.0}
+    else:
+        pc, pp = test_equation_IMEX, {'lambdas_implicit': z / DT, 'lambdas_explicit': 0.5 * np.conj(z) / DT, 'u0': 1.0}
+    for k in (1, 2, 4):
+        for mode in ([False, True] if right else [True]):
+            cfg = dict(clause='sdc_switch', kind=kind, names=dict(b), built_with=dict(a), node_type=nt, quad_type=qt, M=M, k=k, do_coll_update=mode, _seen=set())
+            res.cases += 1
+            try:
+                direct = run_step(pc, pp, spec['cls'], sweeper_params_for(cfg), k)[0]
+            except Exception:  # noqa: BLE001  (the name is refused for this rule: judged by the sdc clause)
+                res.outcomes['switch:target_refused'] += 1
+                continue
+            try:
+                pa = sweeper_params_for(dict(cfg, names=dict(a)))
+                switched = run_step_switched(pc, pp, spec['cls'], pa, b, spec['slots'], k)
+            except Exception as e:  # noqa: BLE001
+                if any(O.qd_class_of(a[s]) != O.qd_class_of(b[s]) for s in a):
+                    res.outcomes['switch:source_refused'] += 1
+                    continue
+                record(res, cfg, 'exception', float('inf'), {'error': f'{type(e).__name__}: {str(e)[:300]}'})
+                continue
+            res.runs += 2
+            sc = np.maximum(1.0, np.abs(direct))
+            ratio = float(np.max(np.abs(switched - direct) / (C_PT * EPS * sc)))
+            record(res, cfg, 'switched_sweeper=directly_built_sweeper', ratio, {'max_abs_diff': float(np.max(np.abs(switched - direct))), 'built_with': dict(a), 'switched_to': dict(b)})
+    return res
+
+
 RK_DOC_ORDER = {
     'ForwardEuler': (1, '"Not very stable first order method."'),
     'BackwardEuler': (1, '"A-stable first order method."'),
@@ -636,6 +698,16 @@ def plan(tier):
         add('SDC explicit: all generators x 24 families x M<=7 x k=1..p+2 x modes (+converged)', sdc('explicit', [{'QE': g} for g in G], ALL_FAMILIES, Ms))
         add('SDC IMEX: all QI generators x FE x 24 families x M<=3 (LEGENDRE: M<=4) x k=1..p+2 x modes (+converged)', sdc('imex', [{'QI': a, 'QE': 'FE'} for a in G], ALL_FAMILIES, (1, 2, 3)) + sdc('imex', [{'QI': a, 'QE': 'FE'} for a in G], LEG, (4,)))
         add('SDC IMEX: core QI generators x {PIC,SOE} x 24 families x M<=3 x k=1..p+2 x modes (+converged)', sdc('imex', [{'QI': a, 'QE': b} for a in CORE_I for b in ('PIC', 'SOE')], ALL_FAMILIES, (1, 2, 3)))
+    sw = []
+    fam = [('LEGENDRE', q) for q in ('RADAU-RIGHT', 'LOBATTO', 'GAUSS')]
+    Msw = (2, 3) if tier == 'quick' else (1, 2, 3, 5)
+    for nt, qt in fam:
+        for M in Msw:
+            sw += [dict(clause='switch', kind='implicit', a={'QI': x}, b={'QI': y}, node_type=nt, quad_type=qt, M=M) for x in CORE_I for y in CORE_I if x != y]
+            sw += [dict(clause='switch', kind='explicit', a={'QE': x}, b={'QE': y}, node_type=nt, quad_type=qt, M=M) for x in EXPL_OK for y in EXPL_OK if x != y]
+            sw += [dict(clause='switch', kind='imex', a={'QI': 'LU', 'QE': x}, b={'QI': 'LU', 'QE': y}, node_type=nt, quad_type=qt, M=M) for x in EXPL_OK for y in EXPL_OK if x != y]
+            sw += [dict(clause='switch', kind='imex', a={'QI': x, 'QE': 'FE'}, b={'QI': y, 'QE': 'FE'}, node_type=nt, quad_type=qt, M=M) for x in CORE_I for y in CORE_I if x != y]
+    add('SDC switch: preconditioner of an existing sweeper replaced by another one (ordered pairs of core implicit / explicit names; IMEX one slot at a time) x LEGENDRE x {RADAU-RIGHT, LOBATTO, GAUSS} x k in {1,2,4} x end-point modes, against the directly built sweeper', sw)
     add('RK: every RungeKutta / RungeKuttaIMEX class, one controller step, maxiter=1', [dict(clause='rk', sweeper=n) for n in rk_classes()])
     return units, desc
 
@@ -643,6 +715,8 @@ def plan(tier):
 def run_unit(unit):
     if unit['clause'] == 'sdc':
         r = run_sdc_unit(unit)
+    elif unit['clause'] == 'switch':
+        r = run_switch_unit(unit)
     else:
         r = run_rk_unit(unit)
     return unit['label'], r
@@ -736,6 +810,8 @@ def replay(rep, case):
     res = Res()
     if cfg.get('clause') == 'rk':
         run_rk_case(res, cfg, rk_classes()[cfg['sweeper']])
+    elif cfg.get('clause') == 'sdc_switch':
+        res = run_switch_unit(dict(clause='switch', kind=cfg['kind'], a=cfg['built_with'], b=cfg['names'], node_type=cfg['node_type'], quad_type=cfg['quad_type'], M=cfg['M']))
     else:
         spec = KINDS[cfg['kind']]
         nodes, p = O.collocation_nodes(cfg['node_type'], cfg['quad_type'], cfg['M'])
